@@ -101,7 +101,9 @@ pub fn exec_op(ctx: &mut ArrCtx, verb: &str, m: &BTreeMap<String, String>, line:
                     for which in 0..2 {
                         fs.count.store(0, Ordering::SeqCst); fs.fail_at.store(k as i64, Ordering::SeqCst);
                         let a = array.clone(); let o = opts.clone();
-                        let _ = std::panic::catch_unwind(std::panic::AssertUnwindSafe(|| if which == 0 { a.retrieve_array_subset_opt_cached(&dc, &region, &o).map(|_| ()) } else { a.retrieve_array_subset_opt_cached(&ec, &region, &o).map(|_| ()) }));
+                        // (a cached read under a fault: an error or - when the fault position is beyond what this read issues - a value; never a panic)
+                        let faulted = std::panic::catch_unwind(std::panic::AssertUnwindSafe(|| if which == 0 { a.retrieve_array_subset_opt_cached(&dc, &region, &o).map(|_| ()) } else { a.retrieve_array_subset_opt_cached(&ec, &region, &o).map(|_| ()) }));
+                        if faulted.is_err() { panics += 1; }
                         fs.fail_at.store(0, Ordering::SeqCst);
                         let again = std::panic::catch_unwind(std::panic::AssertUnwindSafe(|| if which == 0 { a.retrieve_array_subset_opt_cached(&dc, &region, &o) } else { a.retrieve_array_subset_opt_cached(&ec, &region, &o) }.map(|b| format!("val {}", show_elems(&from_array_bytes(ctx.es, b)))).unwrap_or("err".into()))).unwrap_or("panic".into());
                         if inner_verb == "retrieve_array_subset" && again != r0 { cached_wrong += 1; }
@@ -123,8 +125,8 @@ pub fn exec_op(ctx: &mut ArrCtx, verb: &str, m: &BTreeMap<String, String>, line:
                     "store_metadata" => array.store_metadata().is_ok(),
                     "erase_metadata" => array.erase_metadata().is_ok(),
                     "open" => Array::open(fsd.clone(), &ctx.path).is_ok(),
-                    "open_v2" => Group::open(fsd.clone(), "/grp2_c20").map(|g| g.attributes().len() == 2).unwrap_or(false)
-                        && Array::open(fsd.clone(), "/arr2_c20").map(|a| a.attributes().len() == 1).unwrap_or(false)
+                    // (success is success, whatever the handle holds: a swallowed read error shows as `ok` under a fault)
+                    "open_v2" => Group::open(fsd.clone(), "/grp2_c20").is_ok() && Array::open(fsd.clone(), "/arr2_c20").is_ok()
                         && zarrs::node::Node::open(&fsd, "/grp2_c20").is_ok(),
                     "group" => { let g = GroupBuilder::new().build(fsd.clone(), "/grp_c20"); match g { Ok(g) => g.store_metadata().is_ok() && Group::open(fsd.clone(), "/grp_c20").is_ok() && g.erase_metadata().is_ok(), Err(_) => false } }
                     _ => false,
